@@ -95,8 +95,10 @@ fn probe(path: &str) {
         }
         Err(e) => println!("core error: {}", e),
     }
+    gv::capture_panics();
     let vm = new_vm();
     let a = run(&vm, "probe_a", &src, false);
+    println!("panic location: {:?}", gv::last_panic_location());
     let vm = new_vm();
     let b = run(&vm, "probe_b", &src, true);
     println!("noopt {:?}", a);
@@ -314,8 +316,11 @@ impl<'a> Inst<'a> {
                 }
             }
             Expr::Lam(xs, body) => {
+                // a `let` between two lambdas changes how the type checker generalises the
+                // inner one (programs outside the fragment): only discard in front of a non-lambda
+                let inner_lam = matches!(*body, Expr::Lam(..));
                 let body = self.go(*body);
-                Expr::Lam(xs, b(self.maybe_discard(body)))
+                Expr::Lam(xs, b(if inner_lam { body } else { self.maybe_discard(body) }))
             }
             Expr::App(f, args) => {
                 let f = bx(self, f);
@@ -412,12 +417,49 @@ fn run_on(vm: &Thread, name: &str, src: &str) -> (String, Vec<i64>) {
     LOG.lock().unwrap().clear();
     let r = gv::catch(|| vm.run_expr::<AnyVal>(name, src));
     let o = match r {
-        Err(p) => format!("panic {}", gv::quote(&p.chars().take(80).collect::<String>())),
+        Err(p) => format!("panic {}", gv::quote(&normalize(&p))),
         Ok(Ok((v, _t))) => format!("(ok {})", surf::canon_value(v.get_variant())),
         Ok(Err(e)) => surf::classify_error(&format!("{}", e)),
     };
     let log = LOG.lock().unwrap().clone();
     (o, log)
+}
+
+/// Make a panic message usable as a stable fingerprint (the scheme of the C01 harness):
+/// addresses and numbers are replaced.
+fn normalize(msg: &str) -> String {
+    let mut out = String::new();
+    let cs: Vec<char> = msg.chars().collect();
+    let mut i = 0;
+    while i < cs.len() {
+        if cs[i] == '0' && i + 1 < cs.len() && cs[i + 1] == 'x' {
+            i += 2;
+            while i < cs.len() && cs[i].is_ascii_hexdigit() {
+                i += 1;
+            }
+            out.push_str("ADDR");
+        } else if cs[i].is_ascii_digit() {
+            while i < cs.len() && cs[i].is_ascii_digit() {
+                i += 1;
+            }
+            out.push('#');
+        } else {
+            out.push(cs[i]);
+            i += 1;
+        }
+    }
+    out.chars().take(90).collect()
+}
+
+/// The stable part of a (normalised) panic message: messages that embed generated variable or
+/// type-variable names are cut down to their fixed head.
+fn panic_site(m: &str) -> String {
+    for head in ["Undefined variable", "Expected record, got"] {
+        if m.starts_with(head) {
+            return head.to_string();
+        }
+    }
+    m.to_string()
 }
 
 fn child() {
@@ -507,11 +549,23 @@ fn judge(out: &mut gv::Out, p: &Prog, res: &Result<String, String>, idx: usize) 
         }
         return;
     }
-    if ca == "panic" && cb == "panic" {
-        // internal failure of the front end on both paths (C01's finding), same fingerprint as there
+    if ca == "panic" || cb == "panic" {
+        // internal failure of the compiler pipeline (the class of findings C01 lists); the
+        // fingerprint names the failing site and whether only one of the two paths fails
+        let msg = |o: &str| serde_json::from_str::<String>(o.trim_start_matches("panic ")).unwrap_or_else(|_| o.to_string());
+        let (m, side) = if ca == "panic" && cb == "panic" {
+            (msg(&oa), "")
+        } else if ca == "panic" {
+            (msg(&oa), ":only-unoptimised")
+        } else {
+            (msg(&ob), ":only-optimised")
+        };
         out.oracle_fail(
-            &format!("panic:{}", oa.trim_start_matches("panic ").trim_matches('"')),
-            &format!("a generated program made the pipeline fail internally: {}", oa),
+            &format!("panic:{}{}", panic_site(&m), side),
+            &format!(
+                "a generated program made the pipeline fail internally: optimize=false gives {}, optimize=true gives {}",
+                oa, ob
+            ),
             serde_json::json!({"source": p.src, "label": p.label}),
         );
         return;
@@ -577,6 +631,81 @@ fn judge(out: &mut gv::Out, p: &Prog, res: &Result<String, String>, idx: usize) 
     }
 }
 
+/// Like `gv::child::batch`, but stdin is fed from its own thread: the answers of this harness
+/// (core dumps) are large, so a child can fill its stdout pipe before it has read all its input.
+fn batch(inputs: &[String], chunk: usize, timeout: std::time::Duration) -> Vec<Result<String, String>> {
+    use std::io::{Read, Write};
+    use std::process::{Command, Stdio};
+    let mut results: Vec<Result<String, String>> = Vec::with_capacity(inputs.len());
+    let mut start = 0;
+    while start < inputs.len() {
+        let end = (start + chunk).min(inputs.len());
+        let mut payload = String::new();
+        for i in &inputs[start..end] {
+            payload.push_str(&serde_json::to_string(i).unwrap());
+            payload.push('\n');
+        }
+        let exe = std::env::current_exe().unwrap();
+        let mut ch = Command::new(exe)
+            .arg("--child")
+            .stdin(Stdio::piped())
+            .stdout(Stdio::piped())
+            .stderr(Stdio::null())
+            .spawn()
+            .expect("spawn child");
+        let mut si = ch.stdin.take().unwrap();
+        let mut so = ch.stdout.take().unwrap();
+        let t_in = std::thread::spawn(move || {
+            let _ = si.write_all(payload.as_bytes());
+        });
+        let t_out = std::thread::spawn(move || {
+            let mut s = Vec::new();
+            let _ = so.read_to_end(&mut s);
+            String::from_utf8_lossy(&s).into_owned()
+        });
+        let t0 = std::time::Instant::now();
+        let class: Option<String> = loop {
+            match ch.try_wait().unwrap() {
+                Some(st) => {
+                    use std::os::unix::process::ExitStatusExt;
+                    break if let Some(sig) = st.signal() {
+                        Some(format!("signal:{}", sig))
+                    } else if st.code() == Some(0) {
+                        None
+                    } else {
+                        Some(format!("exit:{}", st.code().unwrap_or(-1)))
+                    };
+                }
+                None => {
+                    if t0.elapsed() > timeout {
+                        let _ = ch.kill();
+                        let _ = ch.wait();
+                        break Some("timeout".to_string());
+                    }
+                    std::thread::sleep(std::time::Duration::from_millis(2));
+                }
+            }
+        };
+        let out = t_out.join().unwrap();
+        let _ = t_in.join();
+        let mut n = 0;
+        for line in out.lines() {
+            if let Some(rest) = line.strip_prefix("R ") {
+                if start + n < end {
+                    results.push(Ok(serde_json::from_str::<String>(rest).unwrap_or_else(|_| rest.to_string())));
+                    n += 1;
+                }
+            }
+        }
+        if start + n < end {
+            results.push(Err(class.unwrap_or_else(|| "exit:incomplete".to_string())));
+            n += 1;
+        }
+        start += n;
+    }
+    results
+}
+
 fn main() {
     gv::quiet_panics();
     let a: Vec<String> = std::env::args().collect();
@@ -594,7 +723,7 @@ fn main() {
         let v: serde_json::Value = serde_json::from_str(&std::fs::read_to_string(rp).unwrap()).unwrap();
         let src = v["case"]["source"].as_str().unwrap().to_string();
         println!("{}", src);
-        let r = gv::child::batch(&["--child"], &[src], 1, std::time::Duration::from_secs(120));
+        let r = batch(&[src], 1, std::time::Duration::from_secs(120));
         println!("=> {:?}", r[0]);
         out.finish();
         return;
@@ -639,7 +768,7 @@ fn main() {
         progs.push(Prog { label: format!("random:{}", i), src: full_text(&e2), constructs: cs, targeted: false });
     }
     let inputs: Vec<String> = progs.iter().map(|p| p.src.clone()).collect();
-    let results = gv::child::batch(&["--child"], &inputs, 60, std::time::Duration::from_secs(600));
+    let results = batch(&inputs, 60, std::time::Duration::from_secs(600));
     for (i, (p, r)) in progs.iter().zip(results.iter()).enumerate() {
         judge(&mut out, p, r, i);
     }
